@@ -121,7 +121,9 @@ inductive Ev where
 inductive Op where
   | send (sender : Addr) (dest : String) (token : Token) (amount fee : Nat)
   | cancel (id : Nat) (who : Addr)
-  | incFee (id : Nat) (who : Addr) (token : Token) (add : Nat)
+  /-- `evm`: through the `increaseBridgeFee` precompile, called by `who`'s EVM address with the ERC-20 contract of `token`
+  (the added fee is taken from the caller's ERC-20 balance); otherwise `MsgIncreaseBridgeFee` -/
+  | incFee (id : Nat) (who : Addr) (token : Token) (add : Nat) (evm : Bool)
   | reqBatch (token : Token) (minFee baseFee : Nat) (feeReceive : String)
   | bridgeCall (sender refund : Addr) (to data memo : String) (coins : List (Token × Nat))
   /-- `crossChain` precompile called by `sender`'s EVM address with the ERC-20 contract of `token` -/
@@ -249,12 +251,37 @@ def cleanupCallsCore (s : State) : State :=
   (expiredCalls h s.calls).foldl refundCall
     { s with calls := if callCleanupDeletes then keptCalls h s.calls else s.calls }
 
-/-- `cleanupTimeOutBridgeCall`: every refunded record is deleted together with its from-message mark
-(`DeleteOutgoingBridgeCallRecord`; the marks are per nonce, so deleting them after the refunds is the same as the source's
-refund-delete-refund-delete) -/
-def cleanupCalls (s : State) : State :=
+/-- `cleanupTimeOutBridgeCall` in closed form: every refunded record is deleted together with its from-message mark; all
+refunds read the marks as they were before the clean-up (equal to the sequential `cleanupCalls` below on every field except,
+when two stored records share a nonce — never in a reachable state — `erc` / `fromMsg`: `Proofs.C05.cleanupCalls_core`) -/
+def cleanupCallsStd (s : State) : State :=
   let s' := cleanupCallsCore s
   if callCleanupDeletes then dropFromMsg ((expiredCalls (heightOf callCleanupSrc s) s.calls).map (·.nonce)) s' else s'
+
+/-! ### settlement of one outgoing bridge-call record: the statements of the source, run in the order they have there
+
+`HandleOutgoingBridgeCallRefund` READS the from-message mark (coins, or ERC-20) and `DeleteOutgoingBridgeCallRecord`
+REMOVES it, so their order matters: the statement lists are regenerated (`callCleanupBody`, `resultFailureBody`,
+`resultSuccessBody`, `deleteRecordBody`) and interpreted here, one record after the other, as the iteration callback does. -/
+
+/-- a primitive statement, by the name it has in the source -/
+def callPrim (c : Call) (name : String) (s : State) : State :=
+  if name = "HandleOutgoingBridgeCallRefund" then refundCall s c
+  else if name = "DeleteOutgoingBridgeCall" then { s with calls := s.calls.erase c }
+  else if name = "DeleteBridgeCallFromMsg" then { s with fromMsg := s.fromMsg.filter (fun n => !([c.nonce].contains n)) }
+  else s
+
+/-- `DeleteOutgoingBridgeCallRecord` is its regenerated body -/
+def callStmt (c : Call) (name : String) (s : State) : State :=
+  if name = "DeleteOutgoingBridgeCallRecord" then deleteRecordBody.foldl (fun s n => callPrim c n s) s
+  else callPrim c name s
+
+def callStmts (c : Call) (body : List String) (s : State) : State := body.foldl (fun s n => callStmt c n s) s
+
+/-- `cleanupTimeOutBridgeCall`: the callback body (`callCleanupBody`, regenerated) runs for one expired record after the
+other, in iteration order -/
+def cleanupCalls (s : State) : State :=
+  (expiredCalls (heightOf callCleanupSrc s) s.calls).foldl (fun s c => callStmts c callCleanupBody s) s
 
 /-! ## operations -/
 
@@ -292,16 +319,19 @@ def incFeePayerOf (tx : Tx) (who : Addr) : Addr :=
   | .txSender => tx.sender
   | .unknown => who
 
-def doIncFee (s : State) (id : Nat) (who : Addr) (token : Token) (add : Nat) : State × Res :=
+def doIncFee (s : State) (id : Nat) (who : Addr) (token : Token) (add : Nat) (evm : Bool) : State × Res :=
   if id = 0 ∨ add = 0 then (s, .err) else
   match s.pool.find? (fun t => t.id = id) with
   | none => (s, .err)
   | some tx =>
+    -- `evm`: `IncreaseBridgeFeeMethod.Run` → `handlerERC20Token` (`transferFrom` out of the caller's ERC-20 balance, converted
+    -- to the caller's coins) → `AddUnbatchedTxBridgeFee(txID, caller, fee)`; a failure anywhere reverts the whole call
     if ¬ token < s.nTokens ∨ (incFeeTokenCheck = true ∧ tx.token ≠ token) ∨
-        getBal s.bal (incFeePayerOf tx who, token) < add then (s, .err)
+        getBal s.bal (incFeePayerOf tx who, token) < add ∨ (evm = true ∧ getBal s.erc (who, token) < add) then (s, .err)
     else
       ({ s with pool := insertDesc { tx with fee := tx.fee + add } (s.pool.erase tx),
-                bal := subBal s.bal (incFeePayerOf tx who, token) add }, .ok 0)
+                bal := subBal s.bal (incFeePayerOf tx who, token) add,
+                erc := subBal s.erc (who, token) (evm.toNat * add) }, .ok 0)
 
 /-- the batch with the highest nonce of a token (`GetLastOutgoingBatchByToken`) -/
 def lastBatch (t : Token) (bs : List Batch) : Option Batch :=
@@ -418,8 +448,9 @@ def doObserveStd (s : State) (h : Nat) (ev : Ev) : State × Res :=
   | none => (s, .panic)
   | some s2 => (cleanupCalls (cleanupBatches s2), .ok s1.eventNonce)
 
-/-- `ExecuteClaim` for bridge-call result claims (`BridgeCallResultHandler`): whether the record is refunded and whether
-it is deleted, per outcome, is read from the source (`resultRefundsOn…`, `resultDeletesOn…`) -/
+/-- `ExecuteClaim` for bridge-call result claims (`BridgeCallResultHandler`): what happens to the record, per outcome, is
+the regenerated statement list (`resultSuccessBody` / `resultFailureBody`) run in source order; the ghost log records an
+execution when a successful result is applied without a refund -/
 def doExec (s : State) (n : Nat) : State × Res :=
   match s.pending.find? (fun p => p.1 = n) with
   | none => (s, .err)
@@ -427,13 +458,11 @@ def doExec (s : State) (n : Nat) : State × Res :=
     match s.calls.find? (fun c => c.nonce = p.2.1) with
     | none => (s, .panic)
     | some c =>
-      let refunds := if p.2.2 then resultRefundsOnSuccess else resultRefundsOnFailure
-      let deletes := if p.2.2 then resultDeletesOnSuccess else resultDeletesOnFailure
-      let s1 := { s with pending := s.pending.erase p, calls := if deletes then s.calls.erase c else s.calls }
-      let fin := fun (st : State) => if deletes then dropFromMsg [c.nonce] st else st
-      if refunds then (fin (refundCall s1 c), .ok 0)
-      else if p.2.2 then (fin { s1 with settled := s1.settled ++ [⟨true, c.nonce, .executed, 0, c.tokens⟩] }, .ok 0)
-      else (fin s1, .ok 0)
+      let body := if p.2.2 then resultSuccessBody else resultFailureBody
+      let s2 := callStmts c body { s with pending := s.pending.erase p }
+      if p.2.2 && !(body.contains "HandleOutgoingBridgeCallRefund") then
+        ({ s2 with settled := s2.settled ++ [⟨true, c.nonce, .executed, 0, c.tokens⟩] }, .ok 0)
+      else (s2, .ok 0)
 
 /-- the same with the refund / delete pattern the source has now (see `Proofs.C05.doExec_eq`) -/
 def doExecStd (s : State) (n : Nat) : State × Res :=
@@ -458,7 +487,7 @@ def endBlock (s : State) : State :=
 def step (s : State) : Op → State × Res
   | .send a d t am f => doSend s a d t am f
   | .cancel id who => doCancel s id who
-  | .incFee id who t add => doIncFee s id who t add
+  | .incFee id who t add evm => doIncFee s id who t add evm
   | .reqBatch t mf bf fr => doReqBatch s t mf bf fr
   | .bridgeCall a r to d m cs => doBridgeCall s a r to d m cs
   | .psend a d t am f => doPSend s a d t am f
